@@ -11,7 +11,8 @@
    in this period. The finished-goods order is min(capacity, rule(position)); for each raw material r of k the quantity
    NBOM(k, r) x order goes to the FIRST supplier of r (the still_to_order loop gives every further supplier 0).
    No proofs in this file. The state a node hands to this step is an INPUT here (rows of rationals read from the
-   implementation by the harness); the evolution of multi-product networks over time is not modelled. *)
+   implementation by the harness); the evolution of multi-product networks over time is modelled in Sim2/Model2.v,
+   whose ordering action is proved to coincide with [order_step] on the rows read off the state (Sim2/Inv2c_refine.v). *)
 From SV Require Export Sim.Model.
 
 Record msup := { s_nb : nb; s_oo : Q; s_idi : Q }.
